@@ -21,7 +21,7 @@ def pool_key(cfg, i):
     if i % 5 == 3:
         return base.encode()
     if i % 5 == 4:
-        return base + "é"
+        return base + ("~" if cfg.get("ascii") else "é")
     return base
 
 
@@ -73,6 +73,8 @@ class ExpSystem(System):
                         for s in strats[: 1 if quick and prop != "C10" else 2]:
                             cfgs.append(dict(cls="rot", E=e, Q=q, p=p, strat=s, depth=q * e + e + 3, budget=budget,
                                              prefix=f"r{seed}_", cost=budget))
+        if prop == "C06":
+            cfgs = [dict(c, ascii=True) for c in cfgs if c["strat"] == "fnv"]
         if seed:
             r = seed % len(cfgs)
             cfgs = cfgs[r:] + cfgs[:r]
@@ -101,6 +103,7 @@ class ExpSystem(System):
             "epoch": 0,  # number of explicit push/pop calls
             "pushed": False,
             "allkeys": [],  # every key index ever passed to add
+            "members": [[]],  # per sub-filter: key indices really inserted there (for the C writer)
         }
         return State(f, model)
 
@@ -119,19 +122,24 @@ class ExpSystem(System):
         evs.append(("reload", "file"))
         return evs
 
-    def _insert_model(self, cfg, m):
+    def _insert_model(self, cfg, m, ki):
         """an effective insertion on the model's per-filter counts"""
         e = cfg["E"]
         c = m["counts"]
+        mem = m["members"]
         if cfg["cls"] == "exp":
             if c[-1] >= e:
                 c.append(0)
+                mem.append([])
         else:
             if c[-1] == e:
                 if len(c) >= cfg["Q"]:
                     c.pop(0)
+                    mem.pop(0)
                 c.append(0)
+                mem.append([])
         c[-1] += 1
+        mem[-1] = mem[-1] + [ki]
         m["eff"] += 1
 
     def apply(self, cfg, st, ev, choices=None):
@@ -156,7 +164,7 @@ class ExpSystem(System):
                     m["allkeys"] = m["allkeys"] + [ki]
                 effective = force or was == ("ok", False)
                 if effective:
-                    self._insert_model(cfg, m)
+                    self._insert_model(cfg, m, ki)
                     if was == ("ok", False):
                         m["ins"] = m["ins"] + [[ki, m["eff"], m["epoch"]]]
                 return ("ok", {"key": ki, "was_present": was[1] if was[0] == "ok" else None, "effective": effective})
@@ -167,7 +175,9 @@ class ExpSystem(System):
                 c = m["counts"]
                 if cfg["cls"] == "rot" and len(c) >= cfg["Q"]:
                     c.pop(0)
+                    m["members"].pop(0)
                 c.append(0)
+                m["members"].append([])
                 m["epoch"] += 1
                 m["pushed"] = True
             return obs
@@ -176,6 +186,7 @@ class ExpSystem(System):
             if obs[0] == "ok":
                 if len(m["counts"]) > 1:
                     m["counts"].pop(0)
+                    m["members"].pop(0)
                 m["epoch"] += 1
             return obs
         if kind == "reload":
